@@ -1288,9 +1288,14 @@ pub fn fixed_cases(tier: Tier) -> Vec<Case> {
         chunked("entry-bounds", ops, 12, &mut out);
     }
     // (10) scale: production-shaped files through the 1 MiB chunk loop, size-relative CPU budget
-    let big: &[(u64, u64, u64)] = if tier == Tier::Quick { &[(9000, 8, 300)] } else { &[(9000, 8, 300), (40000, 8, 2000), (100000, 10, 20000)] };
-    for (k, (f, l, n)) in big.iter().enumerate() {
-        out.push(Case { name: format!("scale-{k}"), ops: vec![format!("bigsym {f} {l} {n} {}", k + 1)] });
+    // (functions, line records per function, FILE records, seed: even = blocks in descending address order)
+    let big: &[(u64, u64, u64, u64)] = if tier == Tier::Quick {
+        &[(9000, 8, 300, 1), (40000, 0, 50, 2)]
+    } else {
+        &[(9000, 8, 300, 1), (40000, 0, 50, 2), (40000, 8, 2000, 3), (100000, 10, 20000, 5), (100000, 2, 1000, 6)]
+    };
+    for (k, (f, l, n, seed)) in big.iter().enumerate() {
+        out.push(Case { name: format!("scale-{k}"), ops: vec![format!("bigsym {f} {l} {n} {seed}")] });
     }
     out
 }
